@@ -98,6 +98,15 @@ CHECKS.update({
   note="Trusted: z3/CrossHair. Names, outputs and payloads are palette picks (sets of Node objects iterate in id() order, so symbolic strings would make paths non-deterministic): the solver chooses the configuration. Assumed: unique names; prefixed names of an expansion do not collide with existing ones. Outside: custom splicers/splitters, other fusion callbacks, cyclic graphs, bigger graphs."),
 })
 
+CHECKS.update({
+ "C06": dict(category="other", design_ref="DESIGN.md §4 C06",
+  technique="solver-driven exhaustive exploration (CrossHair/z3 decision tree) of per-frame fault patterns and endpoint interleavings through the real Bridge, Executor.recv_loop, ReliableSender and Listener; plus a symbolic one-step obligation on the retry budget",
+  text="ack-messaging: a real Bridge (built by its own constructor from a queued registration) and a real Executor (recv_loop stepped one iteration at a time) talk through an in-process zmq stand-in whose first F transmissions (data frames and acknowledgements alike, both directions) are each delivered / dropped / duplicated / delayed behind the next one by solver decision, with S solver-chosen interleaving steps (controller iteration / executor iteration / clock jump past the resend grace) and then a fair tail on a perfect network. Assert, for both directions: nothing is delivered that was not sent, nothing twice, and every message is delivered or the run ends with a sender raising. retry-budget-step: with symbolic remaining budget, record time and clock, maybe_retry resends exactly the due record, decreases the budget by one and raises exactly when it reaches zero (covers the real constant 20). frame-sequences: every list of <=4 frames from {Syn, other Syn, Ack, message, payload header, raw bytes, undecodable} through Listener._recv_one: well-formed lists (what send / callback / send_data produce) return the original message (None for a retransmission) and acknowledge the Syn; everything else raises and is never delivered as a message.",
+  note="Trusted: z3/CrossHair, pickle, the fakezmq contract (per-address FIFO; faults only where injected). max_retries_per_message lowered to 3 in the exploration. Outside: TCP behaviour of zmq, unbounded histories, growth of Listener.acked, heartbeats."),
+})
+CHECKS["C17"]["text"] += " Executor-message framing (Syn/Ack/payload frames) is covered by the frame-sequences harness shared with C06."
+CHECKS["C17"]["technique"] += "; framing: solver-driven enumeration of frame lists through the real Listener._recv_one"
+
 NA_REASON = "check not built yet in this round (planned, see DESIGN.md §4); not claimed until its harness exists and passes on the unchanged tree"
 
 def main():
